@@ -168,6 +168,11 @@ func findFunctionCallViolation(
 	case *ast.Ident:
 		// Direct function call: CreateMockData()
 		funcName := fun.Name
+		// The identifier must denote the package-level function itself, not a local
+		// variable or parameter that merely shares its name.
+		if fn, ok := ctx.pass.TypesInfo.Uses[fun].(*types.Func); !ok || fn.Pkg() == nil || fn.Pkg().Path() != *ctx.currentPkgPath {
+			return nil
+		}
 		if ctx.testOnlyFuncs.Match(*ctx.currentPkgPath, funcName, funcName) {
 			return &TestOnlyViolation{
 				Pos:         call.Pos(),
